@@ -247,6 +247,15 @@ class Run:
             self._ev('mon-exit', self.exc_name(getattr(self.mon_thread, 'exc', None)))
         if self.closer is not None and not self.close_reported:
             if self.closer_joining and self.mon_reported or self.state.get('C') == 'idle' and not self.closer_joining:
+                if self.fine:
+                    # every-opcode mode: join() has returned, run the remaining frame-local opcodes of close()
+                    for _ in range(20):
+                        if self._wait_settled('C') == 'idle':
+                            break
+                        with self.cv:
+                            self.state['C'] = 'running'
+                            self.grant['C'] = True
+                            self.cv.notify_all()
                 self.closer.join(PARK_TIMEOUT)
                 if self.closer.is_alive():
                     raise Deadlock('close() does not return although the monitor thread ended')
@@ -356,3 +365,652 @@ def execute(env, schedule, raises=(), fine=False, drain=True):
     final_active = sorted(getattr(th, 'idx', -1) for th in list(run.obj._active)) if run.obj is not None else []
     return dict(labels=labels, outs=outs, events=run.events, final_active=final_active, error=err,
                 raises=sorted(raises))
+
+
+# ---------------------------------------------------------------- oracle (thread half; independent of the model)
+
+def oracle_thread(r) -> list:
+    """The property text on the observed event log of one COMPLETE run of the real class
+    (every thread registered and ended, close() called).  -> [(signature, what)]"""
+    bad = []
+    if r['error']:
+        return [('thread:deadlock', r['error'])]
+    ev = r['events']
+    reg_at, died_at, cbs = {}, {}, []
+    close_called = close_ret = mon_exit = None
+    for p, e in enumerate(ev):
+        k = e[0]
+        if k == 'registered':
+            reg_at[e[1]] = p
+        elif k == 'died':
+            died_at[e[1]] = p
+        elif k == 'cb':
+            cbs.append((p, e[1], e[2]))
+        elif k == 'close-called':
+            close_called = p
+        elif k == 'close-ret':
+            close_ret = (p, e[1])
+        elif k == 'mon-exit':
+            mon_exit = (p, e[1])
+    set_changed = (mon_exit is not None and mon_exit[1] == ['set-changed'])
+    fin = set(r['final_active'])
+    if close_ret is None:
+        bad.append(('thread:close-hangs', 'close() never returned although every registered thread ended'))
+    for t in sorted(reg_at):
+        n = sum(1 for (_, u, _) in cbs if u == t)
+        if n == 0:
+            if set_changed:
+                bad.append(('thread:set-changed-size',
+                            f'thread {t} registered and ended but its callback was never invoked: the monitor thread '
+                            f'died with "RuntimeError: Set changed size during iteration"'))
+            elif t in fin:
+                bad.append(('thread:exit-race',
+                            f'thread {t} registered (before close() was called) and ended but its callback was never '
+                            f'invoked: the monitor saw an empty set, then _closed, and left; close() returned '
+                            f'{"before the thread ended" if close_ret and died_at.get(t, 1 << 30) > close_ret[0] else "without the callback"}'))
+            else:
+                bad.append(('thread:lost-update',
+                            f'thread {t} registered and ended but its callback was never invoked and it is no longer in '
+                            f'_active: its add() went to a set object that `self._active = self._active - done` replaced'))
+        elif n > 1:
+            bad.append(('thread:callback-duplicate', f'callback invoked {n} times for thread {t}'))
+    for (p, t, _) in cbs:
+        if t not in died_at or died_at[t] > p:
+            bad.append(('thread:callback-before-end', f'callback for thread {t} invoked while the thread was alive'))
+        if t not in reg_at:
+            bad.append(('thread:callback-unregistered', f'callback for thread {t} which never registered'))
+    if close_ret is not None and close_called is not None:
+        for t in sorted(reg_at):
+            if reg_at[t] < close_called:
+                if died_at.get(t, 1 << 30) > close_ret[0]:
+                    bad.append(('thread:close-early' if not set_changed else 'thread:set-changed-size',
+                                f'close() returned while registered thread {t} was still running'))
+        raised = [t for (_, t, rz) in cbs if rz]
+        want = ['cb', raised[0]] if raised else None
+        got = close_ret[1]
+        if got != want:
+            if got == ['set-changed']:
+                bad.append(('thread:set-changed-size',
+                            'close() raised "RuntimeError: Set changed size during iteration" (the monitor thread died)'
+                            + (f'; the exception of the callback for thread {raised[0]} is lost' if raised else '')))
+            elif want is not None and got is None:
+                bad.append(('thread:exception-lost', f'callback for thread {raised[0]} raised but close() returned normally'))
+            else:
+                bad.append(('thread:close-raised-other', f'close() raised {got}, expected {want}'))
+    # one per signature
+    seen, res = set(), []
+    for s, w in bad:
+        if s not in seen:
+            seen.add(s)
+            res.append((s, w))
+    return res
+
+
+# ---------------------------------------------------------------- Coq terms
+
+def who_term(w) -> str:
+    return 'Mon' if w == 'M' else 'Closer' if w == 'C' else f'(Reg {cnat(w)})'
+
+
+def label_term(l) -> str:
+    k = l[0]
+    if k == 'arrive': return f'Arrive {cnat(l[1])}'
+    if k == 'die': return f'Die {cnat(l[1])}'
+    if k == 'close': return 'CloseCall'
+    if k == 'step': return f'Step {who_term(l[1])}'
+    raise ValueError(l)
+
+
+def exn_term(e) -> str:
+    if e is None: return 'None'
+    if e[0] == 'cb': return f'(Some (ExCb {cnat(e[1])}))'
+    if e[0] == 'set-changed': return '(Some ExSetChanged)'
+    if e[0] == 'registered': return '(Some ExRegistered)'
+    raise ValueError(e)
+
+
+def event_terms(evs) -> list:
+    res = []
+    for e in evs:
+        k = e[0]
+        if k == 'registered': res.append(f'EvRegistered {cnat(e[1])}')
+        elif k == 'cb': res.append(f'EvCb {cnat(e[1])} {cbool(e[2])}')
+        elif k == 'mon-exit': res.append(f'EvMonExit {exn_term(e[1])}')
+        elif k == 'close-ret': res.append(f'EvCloseRet {exn_term(e[1])}')
+    return res
+
+
+def out_term(o) -> str:
+    if o == 'disabled': return 'ODisabled'
+    if o['acc'] is None: return 'OOk'
+    return f'(OAcc {o["acc"]} {clist(event_terms(o["ev"]))})'
+
+
+HEADER = 'From NL Require Import DoneCb.Model.\n'
+
+
+def thread_cases_file(rs, fn='bad_from') -> str:
+    rows = []
+    for r in rs:
+        rows.append('(' + ', '.join([clist(map(cnat, r['raises'])), clist(map(label_term, r['labels'])),
+                                     clist(map(out_term, r['outs'])), clist(map(cnat, r['final_active']))]) + ')')
+    return (HEADER + 'Definition cases : list case :=\n ' + clist(rows).replace('); (', ');\n (') + '.\n'
+            f'Eval vm_compute in {fn} 0%nat cases.\n')
+
+
+# ---------------------------------------------------------------- schedules
+
+S = lambda w: ['step', w]      # noqa: E731
+
+
+def merges(seqs):
+    """all interleavings of the given sequences (each keeps its own order)"""
+    seqs = [s for s in seqs if s]
+    if not seqs:
+        yield []
+        return
+    for i, s in enumerate(seqs):
+        rest = seqs[:i] + [s[1:]] + seqs[i + 1:]
+        for m in merges(rest):
+            yield [s[0]] + m
+
+
+# the witnesses of Props/C18.v (refuted theorems), replayed on the real class on every run
+WITNESS = {
+    'iteration': dict(raises=[], schedule=[S('M'), S('M'), ['arrive', 1], S(1), S(1), S('M')]),
+    'lost_update': dict(raises=[], schedule=[['arrive', 1], S(1), S(1), ['die', 1]] + [S('M')] * 8
+                        + [['arrive', 2], S(2), S(2), S('M')]),
+    'exit_race': dict(raises=[], schedule=[S('M')] * 5 + [['arrive', 1], S(1), S(1), ['close'], S('C'), S('C'), S('C'), S('M')]),
+}
+
+
+def exhaustive_schedules(k1, k2, d1s, kc):
+    """(a) one thread: every placement of arrive/LoadActive/SetAdd/die among k1 monitor steps;
+       (b) thread 1 registered first and ending after d1 monitor steps, thread 2: every placement of
+           arrive/LoadActive/SetAdd among k2 monitor steps;
+       (c) one thread + close(): every placement of arrive/LoadActive/SetAdd and of the block
+           close();LoadActive;Contains;StoreClosed among kc monitor steps."""
+    t1 = [['arrive', 1], S(1), S(1), ['die', 1]]
+    for m in merges([[S('M')] * k1, t1]):
+        yield 'one', [], m
+    t2 = [['arrive', 2], S(2), S(2)]
+    for d1 in d1s:
+        pre = [['arrive', 1], S(1), S(1)] + [S('M')] * d1 + [['die', 1]]
+        for m in merges([[S('M')] * (k2 - d1), t2]):
+            yield 'two', [], pre + m
+    blk = ('CLOSE',)
+    for m in merges([[S('M')] * kc, [['arrive', 1], S(1), S(1), blk]]):
+        i = m.index(blk)
+        yield 'close', [], m[:i] + [['close'], S('C'), S('C'), S('C')] + m[i + 1:]
+
+
+def random_schedule(rng, nthreads, length):
+    """random labels; mostly enabled ones (the model treats the others as no-ops too)"""
+    lab = []
+    arrived, closed = set(), False
+    for _ in range(length):
+        x = rng.random()
+        if x < 0.45:
+            lab.append(S('M'))
+        elif x < 0.60 and len(arrived) < nthreads and not closed:
+            t = rng.choice([u for u in range(1, nthreads + 1) if u not in arrived])
+            arrived.add(t); lab.append(['arrive', t])
+        elif x < 0.85 and arrived:
+            lab.append(S(rng.choice(sorted(arrived))))
+        elif x < 0.93 and arrived:
+            lab.append(['die', rng.choice(sorted(arrived))])
+        elif x < 0.96:
+            lab.append(['close']); closed = True
+        else:
+            lab.append(S('C'))
+    raises = [t for t in range(1, nthreads + 1) if rng.random() < 0.25]
+    return raises, lab
+
+
+# ---------------------------------------------------------------- task half: real TaskDoneCallback
+
+async def run_task_case(raises, ops):
+    """ops: ['reg', t] | ['complete', t] | ['close'] -> per op the list of observed events
+    ['cb', t, raised] / ['close-ret', t|None]; tasks are gated by futures, so the completion
+    order is exactly the order of the 'complete' ops."""
+    from nextline.utils.done_callback.task import TaskDoneCallback
+    loop = asyncio.get_running_loop()
+    log = []
+    idx, futs, tasks, excs = {}, {}, {}, {}
+
+    def done(task):
+        t = idx[task]
+        if t in raises:
+            log.append(['cb', t, True])
+            e = ValueError(f'task-callback-{t}')
+            excs[id(e)] = (t, e)
+            raise e
+        log.append(['cb', t, False])
+
+    obj = TaskDoneCallback(done=done)
+
+    async def body(t):
+        await futs[t]
+
+    async def get(t):
+        if t not in tasks:
+            futs[t] = loop.create_future()
+            tasks[t] = asyncio.ensure_future(body(t))
+            idx[tasks[t]] = t
+            await asyncio.sleep(0)
+        return tasks[t]
+
+    closer = None
+    result = []
+
+    def close_target():
+        try:
+            obj.close(interval=0.0005)
+            result.append(None)
+        except BaseException as e:   # noqa
+            result.append(e)
+
+    reported = False
+    outs = []
+    for op in list(ops) + [['end']]:
+        del log[:]
+        k = op[0]
+        if k == 'reg':
+            obj.register(await get(op[1]))
+        elif k == 'complete':
+            await get(op[1])
+            if not futs[op[1]].done():
+                futs[op[1]].set_result(None)
+        elif k == 'close':
+            if closer is None:
+                closer = threading.Thread(target=close_target, daemon=True)
+                closer.start()
+        elif k == 'end':
+            # not part of the case: let everything finish
+            for t in list(tasks):
+                if not futs[t].done():
+                    futs[t].set_result(None)
+        for _ in range(4):
+            await asyncio.sleep(0)
+        if closer is not None and not reported:
+            # how long to wait is decided by peeking; WHETHER it returned is observed
+            closer.join(2.0 if not obj._active else 0.004)
+            if not closer.is_alive():
+                reported = True
+                e = result[0]
+                log.append(['close-ret', None if e is None else excs.get(id(e), (9999, e))[0]])
+        if k != 'end':
+            outs.append([list(x) for x in log])
+    if closer is not None and closer.is_alive():
+        outs.append([['close-never-returned']])
+    return outs
+
+
+def oracle_task(raises, ops, outs) -> list:
+    bad = []
+    pending, finished = set(), set()      # registered-and-owed, ended
+    owed = {}                             # t -> callbacks owed so far
+    got = {}
+    registered_all = set()
+    close_started = False
+    first_raised = None
+    if len(outs) > len(ops):
+        bad.append(('task:close-hangs', 'close() never returned although every task ended'))
+        outs = outs[:len(ops)]
+    for op, evs in zip(ops, outs):
+        k = op[0]
+        if k == 'reg':
+            t = op[1]
+            if t not in pending:
+                owed[t] = owed.get(t, 0) + 1
+                pending.add(t)
+        elif k == 'complete':
+            finished.add(op[1])
+        elif k == 'close':
+            close_started = True
+        for e in evs:
+            if e[0] == 'cb':
+                t = e[1]
+                got[t] = got.get(t, 0) + 1
+                if t not in finished:
+                    bad.append(('task:callback-before-end', f'callback for task {t} before the task ended'))
+                if got[t] > owed.get(t, 0):
+                    bad.append(('task:callback-duplicate', f'callback for task {t} invoked {got[t]} times for {owed.get(t, 0)} registration(s)'))
+                pending.discard(t)
+                if e[2] and first_raised is None:
+                    first_raised = t
+            elif e[0] == 'close-ret':
+                if not close_started:
+                    bad.append(('task:close-spurious', 'close returned before it was called'))
+                late = [t for t in pending]
+                if late:
+                    bad.append(('task:close-early', f'close() returned while registered task(s) {sorted(late)} had not ended / been called back'))
+                if e[1] != first_raised:
+                    bad.append(('task:exception-lost', f'close() raised {e[1]}, first callback exception is {first_raised}'))
+    for t in pending & finished:
+        bad.append(('task:callback-missing', f'task {t} registered and ended, callback never invoked'))
+    return bad
+
+
+def top_term(o) -> str:
+    if o[0] == 'reg': return f'TReg {cnat(o[1])}'
+    if o[0] == 'complete': return f'TComplete {cnat(o[1])}'
+    return 'TClose'
+
+
+def tev_term(e) -> str:
+    if e[0] == 'cb': return f'TCb {cnat(e[1])} {cbool(e[2])}'
+    if e[0] == 'close-ret': return 'TCloseRet ' + ('None' if e[1] is None else f'(Some {cnat(min(e[1], 4999))})')
+    if e[0] == 'close-never-returned': return 'TCloseRet (Some 4998%nat)'
+    raise ValueError(e)
+
+
+def task_cases_file(cases) -> str:
+    rows = []
+    for raises, ops, outs in cases:
+        rows.append('(' + ', '.join([clist(map(cnat, sorted(raises))), clist(map(top_term, ops)),
+                                     clist(clist(map(tev_term, evs)) for evs in outs)]) + ')')
+    return ('From NL Require Import DoneCb.Task.\nDefinition cases : list tcase :=\n ' + clist(rows).replace('); (', ');\n (')
+            + '.\nEval vm_compute in tbad_from 0%nat cases.\n')
+
+
+def task_cases(rng, nmax, nrandom):
+    """all completion orders of n <= nmax tasks (all registered first), close() at the end / at every position
+    for n <= 3; plus random op sequences with re-registration and unregistered tasks"""
+    for n in range(0, nmax + 1):
+        for order in itertools.permutations(range(1, n + 1)):
+            regs = [['reg', t] for t in range(1, n + 1)]
+            comp = [['complete', t] for t in order]
+            positions = range(len(comp) + 1) if n <= 3 else [0, len(comp)]
+            for p in positions:
+                ops = regs + comp[:p] + [['close']] + comp[p:]
+                raises = {t for t in range(1, n + 1) if (t * 7 + p + len(order)) % 4 == 0}
+                yield raises, ops
+    for _ in range(nrandom):
+        n = rng.randint(1, 5)
+        ops = []
+        for _ in range(rng.randint(1, 14)):
+            x = rng.random()
+            t = rng.randint(1, n)
+            ops.append(['reg', t] if x < 0.45 else ['complete', t] if x < 0.92 else ['close'])
+        yield {t for t in range(1, n + 1) if rng.random() < 0.3}, ops
+
+
+# ---------------------------------------------------------------- main entry points
+
+def shrink_thread(env, raises, labels, sig):
+    """drop labels while the same oracle signature persists (the drain is re-appended by execute)"""
+    cur = list(labels)
+    changed = True
+    budget = 400
+    while changed and budget > 0:
+        changed = False
+        for i in range(len(cur) - 1, -1, -1):
+            cand = cur[:i] + cur[i + 1:]
+            budget -= 1
+            r = execute(env, cand, raises=raises)
+            if any(s == sig for s, _ in oracle_thread(r)):
+                cur = cand
+                changed = True
+                break
+            if budget <= 0:
+                break
+    return cur
+
+
+def nontrivial_thread(r) -> bool:
+    """a registration step happened while the monitor was in the middle of its loop body, or a callback fired"""
+    seen_mon = False
+    for lab, o in zip(r['labels'], r['outs']):
+        if o == 'disabled':
+            continue
+        if lab == ['step', 'M']:
+            seen_mon = True
+        if lab[0] == 'step' and lab[1] not in ('M', 'C') and seen_mon:
+            return True
+    return any(e[0] == 'cb' for e in r['events'])
+
+
+def _thread_runs(ctx, corr, env, jobs, deadline):
+    """jobs: iterable of (kind, raises, schedule).  Runs them on the real class, oracle on each."""
+    runs = []
+    hist, sigs = {}, {}
+    seen = set()
+    best = {}
+    for kind, raises, sched in jobs:
+        if time.time() > deadline:
+            ctx.notes.append(f'thread schedules: time budget reached after {len(runs)} runs')
+            break
+        r = execute(env, sched, raises=raises)
+        r['kind'] = kind
+        runs.append(r)
+        hist[kind] = hist.get(kind, 0) + 1
+        key = json.dumps([r['raises'], r['labels']])
+        if key not in seen:
+            seen.add(key)
+            if nontrivial_thread(r):
+                corr.distinct_nontrivial += 1
+        for sig, what in oracle_thread(r):
+            sigs[sig] = sigs.get(sig, 0) + 1
+            if sig not in best or len(r['labels']) < len(best[sig][0]['labels']):
+                best[sig] = (r, what, sched)
+    for sig, (r, what, sched) in best.items():
+        small = shrink_thread(env, r['raises'], sched, sig)
+        rr = execute(env, small, raises=r['raises'])
+        corr.violations.append(Violation(sig, what, {
+            'half': 'thread', 'raises': r['raises'], 'schedule': small,
+            'schedule_with_drain': rr['labels'], 'observed_events': rr['events'],
+            'final_active': rr['final_active'], 'occurrences_this_run': sigs[sig],
+            'required': 'every registered thread called back exactly once after it ended; close() returns only after '
+                        'that and re-raises the first callback exception (nothing else)'}))
+    corr.extra['thread_schedule_kinds'] = hist
+    corr.extra['thread_violation_counts'] = sigs
+    return runs
+
+
+def _compare_thread(ctx, corr, runs):
+    ok_runs = []
+    for r in runs:
+        bad_exc = any(e[0] in ('mon-exit', 'close-ret') and e[1] is not None and e[1][0] == 'other' for e in r['events'])
+        if r['error'] or bad_exc:
+            corr.mismatches.append({'kind': 'thread-unmodelled', 'error': r['error'], 'schedule': r['labels'], 'events': r['events']})
+        else:
+            ok_runs.append(r)
+    CH = 400
+    exact = [r for r in ok_runs if r.get('kind') != 'fine']
+    coarse = [r for r in ok_runs if r.get('kind') == 'fine']
+    ok_runs = exact + coarse + [None] * (-(len(exact) + len(coarse)) % CH)
+    files = {f'thr_{i // CH}': thread_cases_file(exact[i:i + CH]) for i in range(0, len(exact), CH)}
+    off = (len(exact) + CH - 1) // CH
+    ok_runs = [None] * (off * CH + len(coarse))
+    ok_runs[:len(exact)] = exact
+    ok_runs[off * CH:] = coarse
+    for i in range(0, len(coarse), CH):
+        files[f'thr_{off + i // CH}'] = thread_cases_file(coarse[i:i + CH], 'bad_from_coarse')
+    for name, (ok, out) in ctx.coq_eval_many(files).items():
+        base = int(name.split('_')[1]) * CH
+        bad = C.parse_nat_list(out) if ok else None
+        if bad is None:
+            corr.mismatches.append({'kind': 'coq-eval-failed', 'file': name, 'log': out[-600:]})
+            continue
+        for b in bad:
+            r = ok_runs[base + b]
+            corr.mismatches.append({'kind': 'thread', 'raises': r['raises'], 'schedule': r['labels'],
+                                    'impl_outs': r['outs'], 'impl_final_active': r['final_active']})
+    return len(exact) + len(coarse)
+
+
+def _fine_runs(ctx, corr, env, n):
+    """every-opcode mode: park before EVERY bytecode of register/close/_monitor; the projection of the
+    run onto shared accesses must behave like the access-granularity run (checked through the model)."""
+    rng = ctx.rng
+    runs = []
+    for _ in range(n):
+        raises, _ = random_schedule(rng, 2, 0)
+        T, sk, cls = env
+        run = Run(cls, sk, T, raises=raises, fine=True)
+        labels, outs = [], []
+        err = None
+        old = sys.gettrace()
+        try:
+            run.start()
+            arrived = 0
+            for _ in range(rng.randint(20, 160)):
+                cands = [['step', 'M']] * 3
+                if arrived < 2:
+                    cands.append(['arrive', arrived + 1])
+                cands += [['step', t] for t in run.threads] * 2 + [['die', t] for t in run.threads]
+                cands += [['close'], ['step', 'C']]
+                cands = [c for c in cands if run.enabled(c)]
+                if not cands:
+                    break
+                lab = rng.choice(cands)
+                if lab[0] == 'arrive':
+                    arrived += 1
+                labels.append(lab); outs.append(run.do(lab))
+            for lab in drain_labels(run, max_mon=4000):
+                labels.append(lab); outs.append(run.do(lab))
+        except Deadlock as e:
+            err = str(e)
+        finally:
+            run.stop()
+            sys.settrace(old)
+        # projection: keep shared accesses; events of frame-local steps move to the thread's previous access
+        pl, po = [], []
+        last = {}
+        for lab, o in zip(labels, outs):
+            if lab[0] == 'step' and o != 'disabled' and o['acc'] == 'Local':
+                if o['ev']:
+                    if lab[1] in last:
+                        po[last[lab[1]]]['ev'] += o['ev']
+                    else:
+                        err = err or f'events {o["ev"]} before the first shared access of {lab[1]}'
+                continue
+            pl.append(lab); po.append(o if o == 'disabled' else {'acc': o['acc'], 'ev': list(o['ev'])})
+            if lab[0] == 'step':
+                last[lab[1]] = len(po) - 1
+        runs.append(dict(labels=pl, outs=po, events=run.events, error=err, raises=sorted(raises), kind='fine',
+                         final_active=sorted(getattr(th, 'idx', -1) for th in list(run.obj._active))))
+    return runs
+
+
+def correspond(ctx) -> Corr:
+    corr = Corr()
+    corr.rule = ('thread half: schedules (Arrive/Step who/Die/CloseCall, + deterministic drain) executed on the REAL '
+                 'ThreadDoneCallback by the opcode scheduler, per-step observation (access executed, callbacks, monitor '
+                 'exit, close result) and final _active compared with DoneCb/Model.v; the 3 witness schedules of '
+                 'Props/C18.v, exhaustive placements for 1-2 registering threads (+close), random beyond, and an '
+                 'every-opcode mode. task half: real TaskDoneCallback under all completion orders vs DoneCb/Task.v. '
+                 'distinct = distinct (raises, schedule); non-trivial = a register access executed after the monitor '
+                 'started looping, or a callback fired')
+    env = load_skeleton()
+    rng = ctx.rng
+    quick = ctx.tier == 'quick'
+    k1, k2, d1s, kc, nrand, nfine, tmax, trand = (10, 12, [0], 8, 300, 40, 4, 150) if quick else \
+        (14, 16, [0, 2, 3, 4, 5, 7, 9, 12], 12, 6000, 600, 5, 3000)
+    deadline = time.time() + (28 if quick else 420)
+
+    def jobs():
+        for n, w in WITNESS.items():
+            yield 'witness:' + n, w['raises'], w['schedule']
+        for p in sorted((C.CORPUS / 'C18').glob('*.json')) if (C.CORPUS / 'C18').exists() else []:
+            j = json.loads(p.read_text())
+            if j.get('half') == 'thread':
+                yield 'corpus', j.get('raises', []), j['schedule']
+        yield from exhaustive_schedules(k1, k2, d1s, kc)
+        for _ in range(nrand):
+            raises, s = random_schedule(rng, rng.randint(1, 4), rng.randint(5, 60))
+            yield 'random', raises, s
+
+    runs = _thread_runs(ctx, corr, env, jobs(), deadline)
+    fine = _fine_runs(ctx, corr, env, nfine)
+    n_thr = _compare_thread(ctx, corr, runs + fine)
+    corr.extra['thread_runs'] = len(runs)
+    corr.extra['every_opcode_runs'] = len(fine)
+    corr.extra['exhaustive_bound'] = (f'1 thread: all placements of arrive/LoadActive/SetAdd/die among {k1} monitor accesses; '
+                                      f'2 threads: thread 1 registered, ending after d1 in {d1s} monitor accesses, all placements '
+                                      f'of thread 2 arrive/LoadActive/SetAdd among {k2}; 1 thread + close(): all placements among {kc}')
+    # witnesses must show what Props/C18.v says they show
+    want = {'witness:iteration': 'thread:set-changed-size', 'witness:lost_update': 'thread:lost-update',
+            'witness:exit_race': 'thread:exit-race'}
+    for r in runs:
+        if r['kind'] in want:
+            got = [s for s, _ in oracle_thread(r)]
+            corr.extra.setdefault('witness_on_real_code', {})[r['kind']] = got
+    # task half
+    tcases = []
+    loop = asyncio.new_event_loop()
+    try:
+        for raises, ops in task_cases(rng, tmax, trand):
+            outs = loop.run_until_complete(run_task_case(raises, ops))
+            tcases.append((raises, ops, outs))
+            for sig, what in oracle_task(raises, ops, outs):
+                corr.violations.append(Violation(sig, what, {'half': 'task', 'raises': sorted(raises), 'ops': ops, 'observed': outs}))
+    finally:
+        loop.close()
+    CH = 400
+    files = {f'task_{i // CH}': task_cases_file(tcases[i:i + CH]) for i in range(0, len(tcases), CH)}
+    for name, (ok, out) in ctx.coq_eval_many(files).items():
+        base = int(name.split('_')[1]) * CH
+        bad = C.parse_nat_list(out) if ok else None
+        if bad is None:
+            corr.mismatches.append({'kind': 'coq-eval-failed', 'file': name, 'log': out[-600:]})
+            continue
+        for b in bad:
+            rs, ops, outs = tcases[base + b]
+            corr.mismatches.append({'kind': 'task', 'raises': sorted(rs), 'ops': ops, 'impl': outs})
+    corr.distinct_nontrivial += sum(1 for _, ops, outs in tcases if any(e for e in outs))
+    corr.evaluations = n_thr + len(tcases)
+    corr.extra['task_cases'] = len(tcases)
+    if runs:
+        r = runs[min(len(runs) - 1, 700)]
+        corr.samples.append({'thread_schedule': r['labels'], 'impl_outs': r['outs'], 'final_active': r['final_active']})
+    if tcases:
+        rs, ops, outs = tcases[len(tcases) // 2]
+        corr.samples.append({'task_ops': ops, 'raises': sorted(rs), 'impl_events': outs})
+    return corr
+
+
+def search(ctx, broken) -> list:
+    """Widened hunt (used when a proof / tie / the correspondence broke and the standard run found nothing)."""
+    env = load_skeleton()
+    corr = Corr()
+    rng = ctx.rng
+
+    def jobs():
+        yield from exhaustive_schedules(14, 16, [0, 2, 4, 6, 9], 12)
+        for _ in range(4000):
+            raises, s = random_schedule(rng, rng.randint(1, 4), rng.randint(5, 80))
+            yield 'random', raises, s
+    _thread_runs(ctx, corr, env, jobs(), time.time() + 240)
+    loop = asyncio.new_event_loop()
+    try:
+        for raises, ops in task_cases(rng, 5, 3000):
+            outs = loop.run_until_complete(run_task_case(raises, ops))
+            for sig, what in oracle_task(raises, ops, outs):
+                corr.violations.append(Violation(sig, what, {'half': 'task', 'raises': sorted(raises), 'ops': ops, 'observed': outs}))
+            if len(corr.violations) > 6:
+                break
+    finally:
+        loop.close()
+    return corr.violations
+
+
+def replay(ctx, path: Path) -> int:
+    j = json.loads(path.read_text())
+    if j.get('half') == 'task':
+        loop = asyncio.new_event_loop()
+        outs = loop.run_until_complete(run_task_case(set(j.get('raises', [])), j['ops']))
+        bad = oracle_task(set(j.get('raises', [])), j['ops'], outs)
+        print('observed:', outs)
+    else:
+        env = load_skeleton()
+        r = execute(env, j['schedule'], raises=j.get('raises', []))
+        for lab, o in zip(r['labels'], r['outs']):
+            print('  ', lab, o)
+        print('final _active:', r['final_active'])
+        bad = oracle_thread(r)
+    for sig, what in bad:
+        print('FAILS:', sig, what)
+    print('replay verdict:', 'property violated' if bad else 'property holds on this input')
+    return 1 if bad else 0
